@@ -34,4 +34,18 @@ extern void (*kalign_verif_cb)(int kind, const void *obj, int a, int b, int c);
 #define KALIGN_VERIF_EVENT(kind,obj,a,b,c) do { } while (0)
 #endif
 
+/* Cooperative "unusual but legal" points: the harness may ask for the rarely
+   taken side of a decision (e.g. run all rounds of a search although an early
+   exit is possible). The answer must be a function of (site, key) only, so that
+   every execution of one request takes the same side. Without -DKALIGN_VERIF
+   the macro is the constant 0. */
+#define KV_SITE_KM_ALL_ROUNDS 1  /* key = number of samples of the k-means node */
+
+#ifdef KALIGN_VERIF
+extern int (*kalign_verif_unusual_cb)(int site, long key);
+#define KALIGN_VERIF_UNUSUAL(site,key) (kalign_verif_unusual_cb ? kalign_verif_unusual_cb((site),(long)(key)) : 0)
+#else
+#define KALIGN_VERIF_UNUSUAL(site,key) 0
+#endif
+
 #endif
